@@ -306,22 +306,15 @@ def stepQuery (wh lim off parts : String) (sel : List String) (keys : List Strin
             || !(adjacentTie le ((isort le p.2).take (climit + 1)))
         -- classifiers of the open findings (known_findings.jsonl)
         let nanNull := ((List.range keys.length).map fun i => items.map fun it => it.1.getD i .null).any nanAndNull
-        -- a nullable arithmetic key whose partition is streamed in several chunks and sorted (not top-n): the sort
-        -- reads a ranking whose null map was not block-buffered
-        let keyArithCols := (keys.flatMap fun k => arithCols k.expr).eraseDups
-        let streamedNullableKey := (splitParts parts rows).any fun p =>
-          decide (p.1 > batchSize) && !(useTopN climit p.1 keys.length constant)
-            && keyArithCols.any fun c => p.2.any fun r => r.getD c .null == .null
         -- a key column that is entirely NULL in one partition (typed Null there, cast to Val in the merge) next to
         -- NULLs of a typed partition (in-band sentinel): the relative order of those tied NULL rows is not modelled
         let keyCols := (keys.flatMap fun k => exprCols k.expr).eraseDups
         let partRows := splitParts parts rows
         let nullTyped := decide (partRows.length > 1) && keyCols.any fun c =>
           partRows.any fun p => !p.2.isEmpty && p.2.all fun r => r.getD c .null == .null
-        let known := if nanNull then "\tC05-nan-null-tie"
-          else if streamedNullableKey then "\tC05-nullable-expr-key-streamed" else ""
+        let known := if nanNull then "\tC05-nan-null-tie" else ""
         let model : String :=
-          if !determined || nanNull || streamedNullableKey || nullTyped then "?" else
+          if !determined || nanNull || nullTyped then "?" else
           match leftTree leaves with
           | none => "rows:[]"
           | some t =>
